@@ -133,6 +133,9 @@ def conformance(search, limit, run):
     def one(tr):
         data = b''.join((c[1][1] if isinstance(c[1][1], bytes) else c[1][1].encode('latin-1')) for c in tr)
         rc, out, err, ok = e3.run_stream(conf, [data], b=search.b, timeout=20.0)
+        if rc == 'timeout':
+            # alone and with a long limit before this counts as "does not leave at end of input" (the machine may just be busy)
+            rc, out, err, ok = e3.run_stream(conf, [data], b=search.b, timeout=120.0)
         want = list(search.banner)
         for _, _, o in tr:
             want += o
